@@ -17,7 +17,11 @@ class DeleteAccordingDate:
         if parsed_days is None:
             return True
         else:
-            contents = self.reader.contents_of(trashinfo_path)
+            try:
+                contents = self.reader.contents_of(trashinfo_path)
+            except (IOError, OSError, UnicodeDecodeError):
+                # unreadable or not text: its date is unknown, keep it
+                return False
             now_value = self.clock.get_now_value(environ)
             deletion_date = parse_deletion_date(contents)
             if deletion_date is not None:
